@@ -321,3 +321,119 @@ def rejected_vs_never_made(scn):
             return "after rejected %s (%s, raised %s) continuation step %d (%s): bandit %r vs copy taken before the call %r" % (
                 op["op"], op["bad"], res[1], diff[0], cont[diff[0]]["op"], diff[1], diff[2])
     return None
+
+
+# ------------------------------------------------------------------ C05 n_jobs / backend / partition independence
+
+def gen_c05(seed, index):
+    prof = {"name": "C05", "lp": ALL_LP, "np": [None] + G.NP_KINDS + G.NP_KINDS,
+            "weights": {"fit": 1, "pfit": 2, "query": 3, "add": 1, "rem": 0.5, "warm": 0.3},
+            "query_sizes": [1, 2, 3, 4, 5, 7, 9], "n_ops": (3, 8)}
+    rng, g = _gen(seed, index, prof)
+    scn = g.build()
+    scn["jobs"] = rng.choice([2, 3, 4, -1, 10 ** 6])
+    scn["backend"] = rng.choice([None, "threading", "threading"])
+    return scn
+
+
+def is_k3(cfg):
+    """known finding K3: TreeBandit leaf policies / exploration draw from the bandit's main generator"""
+    return (cfg.get("np") or {}).get("k") == "tree" and (
+        cfg["lp"]["k"] == "thompson" or (cfg["lp"]["k"] == "greedy" and cfg["lp"]["eps"] > 0))
+
+
+@twin("njobs_vs_one")
+@T.quiet
+def njobs_vs_one(scn):
+    T.register_labels(scn)
+    a = S.make_mab(dict(scn["cfg"], n_jobs=1, backend=None))
+    b = S.make_mab(dict(scn["cfg"], n_jobs=scn["jobs"], backend=scn.get("backend")))
+    ops = scn["ops"] + [{"op": "cold"}, {"op": "arms"}]
+    ra = T.apply_ops(a, ops)
+    rb = T.apply_ops(b, ops)
+    diff = T.first_diff(ra, rb, 0.0)
+    if diff:
+        return "step %d (%s): n_jobs=1 gives %r, n_jobs=%r backend=%r gives %r" % (
+            diff[0], ops[diff[0]]["op"], diff[1], scn["jobs"], scn.get("backend"), diff[2])
+    return None
+
+
+@twin("chunk_vs_rows")
+@T.quiet
+def chunk_vs_rows(scn):
+    """`_predict_contexts` on a whole batch vs on each row alone with the same seeds"""
+    cfg = scn["cfg"]
+    if not cfg.get("np"):
+        return None
+    T.register_labels(scn)
+    a = S.make_mab(cfg)
+    T.apply_ops(a, [op for op in scn["ops"] if op["op"] not in ("pexp", "pred")])
+    imp = a._imp
+    if not a._is_initial_fit:
+        return None
+    for q in [op for op in scn["ops"] if op["op"] in ("pexp", "pred")][:3]:
+        rows = np.asarray(q["c"], dtype=float)
+        if rows.ndim != 2 or len(rows) < 2:
+            continue
+        seeds = np.arange(1000, 1000 + len(rows))
+        is_predict = q["op"] == "pred"
+        st = T.rng_states(a)
+        try:
+            whole = T.canon(imp._predict_contexts(rows, is_predict, seeds, 0))
+        except Exception as e:  # noqa: BLE001
+            return None if "shape" in str(e) or "dimension" in str(e) else "whole-batch call raised %r" % (e,)
+        # restore the bandit's own streams (TreeBandit draws from them: known finding K3)
+        for p, r in T.collect_rngs(a):
+            r.rng.bit_generator.state = st[p]
+        single = []
+        for i in range(len(rows)):
+            single.append(T.canon(imp._predict_contexts(rows[i:i + 1], is_predict, seeds[i:i + 1], i))[0])
+        for p, r in T.collect_rngs(a):
+            r.rng.bit_generator.state = st[p]
+        if not T.same(whole, single, 0.0):
+            bad = [i for i, (x, y) in enumerate(zip(whole, single)) if not T.same(x, y, 0.0)]
+            return "rows %r: _predict_contexts on the whole batch gives %r, row by row with the same seeds %r" % (
+                bad, [whole[i] for i in bad[:2]], [single[i] for i in bad[:2]])
+    return None
+
+
+@twin("fit_task_orders")
+@T.quiet
+def fit_task_orders(scn):
+    """per-arm `_fit_arm` tasks executed in different orders give the same model"""
+    import itertools
+    cfg = scn["cfg"]
+    if cfg.get("np") and cfg["np"]["k"] != "tree":
+        return None
+    T.register_labels(scn)
+    train = [op for op in scn["ops"] if op["op"] in ("fit", "pfit")]
+    if not train:
+        return None
+    base = S.make_mab(cfg)
+    T.apply_op(base, dict(train[0], op="fit"))
+    if not base._is_initial_fit or len(train) < 2:
+        return None
+    op = train[1]
+    d = np.asarray(op["d"])
+    r = np.asarray(op["r"], dtype=float)
+    c = None if op.get("c") is None else np.asarray(op["c"], dtype=float)
+    arms = list(base.arms)
+    orders = list(itertools.permutations(arms)) if len(arms) <= 3 else [tuple(arms), tuple(reversed(arms)),
+                                                                           tuple(arms[1:] + arms[:1])]
+    results = []
+    for order in orders:
+        m = copy.deepcopy(base)
+        imp = m._imp
+        if hasattr(imp, "total_count"):
+            imp.total_count += len(d)
+        try:
+            for arm in order:
+                imp._fit_arm(arm, d, r, c)
+        except Exception:  # noqa: BLE001
+            return None
+        q = {"op": "pexp", "c": None if c is None else [list(map(float, c[0]))]}
+        results.append(T.apply_op(m, q))
+    for o, res in zip(orders[1:], results[1:]):
+        if not T.same(res, results[0], 1e-12):
+            return "task order %r gives %r, order %r gives %r" % (list(orders[0]), results[0], list(o), res)
+    return None
